@@ -407,4 +407,62 @@ example : (∀ x ∈ [(⟨10, 13⟩ : Span), ⟨13, 14⟩, ⟨14, 17⟩], x.star
     [(⟨10, 13⟩ : Span), ⟨13, 14⟩, ⟨14, 17⟩].Pairwise (fun a b => a.stop ≤ b.start) := by
   decide
 
+/-! ### Added by the w22 audit: the theorems APPLIED to concrete values -/
+
+/-- non-vacuity of `apply_spec` / `apply_succeeds` / `apply_prefix_preserved` / `apply_suffix_preserved` /
+`apply_length`: the theorems applied at "abcde", span 1..3, all hypotheses discharged together -/
+example : (Suggestion.replaceWith [120]).apply ⟨1, 3⟩ [97, 98, 99, 100, 101]
+    = .ok ([97, 98, 99, 100, 101].take 1 ++ [120] ++ [97, 98, 99, 100, 101].drop 3) :=
+  apply_spec (.replaceWith [120]) [97, 98, 99, 100, 101] ⟨1, 3⟩ (by decide) (by decide)
+example : ([97, 120, 100, 101] : List Nat).take 1 = [97, 98, 99, 100, 101].take 1 :=
+  apply_prefix_preserved (.replaceWith [120]) [97, 98, 99, 100, 101] [97, 120, 100, 101] ⟨1, 3⟩
+    (by decide) (by decide) rfl
+example : ([97, 120, 100, 101] : List Nat).drop (4 - (5 - 3)) = [97, 98, 99, 100, 101].drop 3 :=
+  apply_suffix_preserved (.replaceWith [120]) [97, 98, 99, 100, 101] [97, 120, 100, 101] ⟨1, 3⟩
+    (by decide) (by decide) rfl
+
+/-- spans touching either end of the text, the whole text, and a zero-width span at the very end
+(in range: `start ≤ end ≤ len` allows `start = end = len`) -/
+example : (Suggestion.remove : Suggestion Nat).apply ⟨0, 2⟩ [97, 98, 99, 100, 101] = .ok [99, 100, 101] := rfl
+example : (Suggestion.remove : Suggestion Nat).apply ⟨3, 5⟩ [97, 98, 99, 100, 101] = .ok [97, 98, 99] := rfl
+example : (Suggestion.replaceWith [120]).apply ⟨0, 5⟩ [97, 98, 99, 100, 101] = .ok [120] := rfl
+example : (Suggestion.replaceWith [120, 121]).apply ⟨3, 5⟩ [97, 98, 99, 100, 101]
+    = .ok [97, 98, 99, 120, 121] := rfl
+example : (Suggestion.insertAfter [44]).apply ⟨5, 5⟩ [97, 98, 99, 100, 101]
+    = .ok [97, 98, 99, 100, 101, 44] := rfl
+example : (Suggestion.insertAfter [44]).apply ⟨0, 0⟩ [97, 98, 99, 100, 101]
+    = .ok [44, 97, 98, 99, 100, 101] := rfl
+
+/-- non-vacuity of `apply_remove_past_end`: "abc", span 2..4 — its three hypotheses together -/
+example : (Suggestion.remove : Suggestion Nat).apply ⟨2, 4⟩ [97, 98, 99]
+    = .ok ([97, 98, 99].take (3 - (4 - 2))) :=
+  apply_remove_past_end [97, 98, 99] ⟨2, 4⟩ (by decide) (by decide) (by decide)
+
+/-- non-vacuity of `apply_replace_of_no_panic` / `apply_insertAfter_of_no_panic` on OUT-of-range
+spans that do not panic -/
+example : ([97, 98, 99, 120, 121] : List Nat) = [97, 98, 99].take 3 ++ [120, 121] ++ [97, 98, 99].drop 4 :=
+  apply_replace_of_no_panic [97, 98, 99] [120, 121] _ ⟨3, 4⟩ rfl
+example : ([97, 44, 98, 99] : List Nat) = [97, 98, 99].take 1 ++ [44] ++ [97, 98, 99].drop 1 :=
+  apply_insertAfter_of_no_panic [97, 98, 99] [44] _ ⟨2, 1⟩ rfl
+
+/-- non-vacuity of `rebase_roundtrip_wf` -/
+example : ∃ s', (⟨7, 9⟩ : Span).pullBy 5 = .ok s' ∧ s'.pushBy 5 = ⟨7, 9⟩ :=
+  rebase_roundtrip_wf ⟨7, 9⟩ 5 (by decide) (by decide)
+
+/-- non-vacuity of `tokenSpan_in_chunk_slice`, `cachedLint_inbounds`, `cachedLint_same_offset`:
+"the cat sat," at offset 10, sub-slice "cat sat", replayed at offset 40 -/
+example : (10 : Nat) ≤ 14 ∧ 14 ≤ 21 ∧ 21 ≤ 22 :=
+  tokenSpan_in_chunk_slice [⟨10, 13⟩, ⟨13, 14⟩] [⟨14, 17⟩, ⟨17, 18⟩, ⟨18, 21⟩] [⟨21, 22⟩] ⟨10, 22⟩ ⟨14, 21⟩
+    (by decide) (by decide)
+example : ∃ out, rebase ⟨14, 21⟩ 10 40 = .ok out ∧ 40 ≤ out.start ∧ out.start ≤ out.stop ∧
+    out.stop ≤ 40 + (22 - 10) ∧ out.stop - out.start = 21 - 14 :=
+  cachedLint_inbounds [⟨10, 13⟩, ⟨13, 14⟩, ⟨14, 17⟩, ⟨17, 18⟩, ⟨18, 21⟩, ⟨21, 22⟩]
+    [⟨14, 17⟩, ⟨17, 18⟩, ⟨18, 21⟩] ⟨10, 22⟩ ⟨14, 21⟩ 40 (by decide) (by decide) (by decide)
+example : rebase ⟨14, 21⟩ 10 10 = .ok ⟨14, 21⟩ :=
+  cachedLint_same_offset [⟨10, 13⟩, ⟨13, 14⟩, ⟨14, 17⟩, ⟨17, 18⟩, ⟨18, 21⟩, ⟨21, 22⟩]
+    [⟨14, 17⟩, ⟨17, 18⟩, ⟨18, 21⟩] ⟨10, 22⟩ ⟨14, 21⟩ (by decide) (by decide) (by decide)
+/-- … and `tokenSpan_first_last` applied -/
+example : tokenSpan [⟨10, 13⟩, ⟨13, 14⟩, ⟨14, 17⟩] = some ⟨10, 17⟩ :=
+  tokenSpan_first_last ⟨10, 13⟩ [⟨13, 14⟩, ⟨14, 17⟩] (by decide) (by decide)
+
 end Harper.C03
